@@ -251,6 +251,9 @@ func minNZ(a, b uint64) uint64 {
 
 func runCtxLua(ctx *core.RunCtx) {
 	g := &clGen{t: ctx.Gen, left: 4 + ctx.Gen.Choose(8)}
+	if ctx.Tier == "thorough" {
+		g.left = 4 + ctx.Gen.Choose(24)
+	}
 	g.b.WriteString(clPrelude)
 	for i, k := 0, 1+ctx.Gen.Choose(3); i < k; i++ {
 		g.node(0, 0)
